@@ -107,3 +107,52 @@ target("breezy/bzr/workingtree.py::InventoryWorkingTree.set_conflicts", params=d
        canary=lambda c: c.g.stored == c.old.g.stored)
 
 undecided("stanza (rio) serialisation of conflicts and the merge-hash file format (external rio code)")
+
+# ---- merge hashes read back (InventoryWorkingTree.merge_modified, block: the loop over the recorded stanzas): EVERY recorded file that
+#      is still versioned and whose text still has the recorded hash is reported with that hash; a stale record (file id no longer in the
+#      tree) is skipped and does not affect the others
+STANZA = Opaque("Stanza")
+Field = ufunc("Field", STANZA, STR, STR)           # Stanza.get(name)
+EncU = ufunc("EncU", STR, BYTES)
+EncA = ufunc("EncA", STR, BYTES)
+PathOfId = ufunc("PathOfId", BYTES, STR)
+VersionedId = ufunc("VersionedId", BYTES, BOOL)
+ShaOf = ufunc("ShaOf", STR, Opt(BYTES))
+Stanzas = ufunc("Stanzas", Seq(STANZA))
+S0 = ufunc("s0", STANZA)                           # an arbitrary recorded stanza
+NotS0 = fold_all("NotS0", Seq(STANZA), lambda e: e != S0())
+exceptions(NoSuchId="Exception")
+assumed("RioReader", pure=True, no_raise=True, returns=lambda c: Stanzas())
+assumed("s.get", pure=True, no_raise=True, returns=lambda c: Field(c.s, c.args[0]))
+assumed("cache_utf8.encode", pure=True, no_raise=True, returns=lambda c: EncU(c.args[0]))
+assumed(rx(r"^s\.get\('hash'\)\.encode$"), pure=True, no_raise=True, returns=lambda c: EncA(Field(c.s, lift("hash"))))
+assumed("self.id2path", pure=True, returns=lambda c: PathOfId(c.args[0]), ensures=lambda c: VersionedId(c.args[0]),
+        raises={"NoSuchId": lambda c: Not(VersionedId(c.args[0]))})
+assumed("self.get_file_sha1", pure=True, returns=lambda c: ShaOf(c.args[0]), raises={"Exception": None})
+
+
+def still_valid(s_):
+    fid = EncU(Field(s_, lift("file_id")))
+    h = EncA(Field(s_, lift("hash")))
+    return And(VersionedId(fid), Not(ShaOf(PathOfId(fid)).is_none), ShaOf(PathOfId(fid)).val == h)
+
+
+def reported(c, s_):
+    fid = EncU(Field(s_, lift("file_id")))
+    p_ = PathOfId(fid)
+    return And(In(p_, c.merge_hashes), c.merge_hashes[p_] == EncA(Field(s_, lift("hash"))))
+
+
+def only_current_hashes(c):
+    return forall([STR], lambda p_: Implies(In(p_, c.merge_hashes), And(Not(ShaOf(p_).is_none), c.merge_hashes[p_] == ShaOf(p_).val)))
+
+
+target("breezy/bzr/workingtree.py::InventoryWorkingTree.merge_modified", block=(r"^\s*for s in RioReader\(hashfile\):", None),
+       params=dict(merge_hashes=MapS(STR, BYTES), hashfile=ANY), locals=dict(file_id=BYTES, path=STR, text_hash=BYTES),
+       requires=lambda c: c.merge_hashes == MapS(STR, BYTES).empty(),
+       loops={1: loop(r"for s in RioReader\(hashfile\)", prefix="seen", inv=lambda c: And(
+           only_current_hashes(c), Implies(And(Not(NotS0(c.seen)), still_valid(S0())), reported(c, S0()))))},
+       ensures={"every_still_valid_record_is_reported": lambda c: Implies(And(Not(NotS0(Stanzas())), still_valid(S0())), reported(c, S0())),
+                "only_current_hashes_are_reported": only_current_hashes},
+       raises={"Exception": True}, canary=lambda c: c.merge_hashes == MapS(STR, BYTES).empty(),
+       note="block: reading the merge hashes back")
